@@ -9,6 +9,14 @@ with exact rationals: its map coordinates, ego-relative positions and squared ce
 compared with the real ones, and the theorems state the invariance for every scene and pose.
 Scenes in which some decision lies within 1e-6 of its boundary are outside the property's
 quantifier: they are detected on the ego rendering, counted and skipped.
+
+"Any ego pose" includes real map coordinates (MGRS/UTM: 1e4 .. 1e6 m from the map origin).  The 'far' family
+renders scenes with such ego translations and puts *twins* into them: distinct objects with the same label,
+yaw, height and time stamp standing 1/1024 .. 1 m apart (ground truths: one matched / both unmatched / both
+matched / matched but failing; estimates: two detections of one ground truth).  Everything that is decided
+through object identity (`==`, `in`, `remove`: which unmatched ground truths become FN or TN, num_success /
+num_fail, ground-truth counts per label) must come out the same in both renderings; the Lean model states why
+(`samePose_toMap`: a rigid motion is injective) and its equality tables are compared with the real `==`.
 """
 from __future__ import annotations
 
@@ -23,19 +31,24 @@ RULE = (
     "random scenes (0..6 GT, 0..7 estimates around them, labels car/bicycle/pedestrian/motorbike/unknown, "
     "per-scene manager filter x/y or distance ring, critical filter, pass/fail thresholds, label policy, radii) x random rational "
     "ego pose (yaw from a rational point on the circle, dyadic translation up to 4096 m); tracking: 2..5 frame sequences with "
-    "persistent uuids and moving ego. non-trivial = at least one estimate-GT pair survives the filters; distinct = distinct JSON"
+    "persistent uuids and moving ego; 'far' family: the same kind of scenes with ego translations of 5e4 .. 1e6 m (both axes, one axis, "
+    "mixed signs) and 1-2 pairs of twins per frame (same label/yaw/height/time, 1/1024 .. 1 m apart; ground-truth twins with one / none / "
+    "both matched or a failing match, estimate twins around one ground truth), detection and tracking. "
+    "non-trivial = at least one estimate-GT pair survives the filters; distinct = distinct JSON"
 )
 THEOREMS = ["PEval.C07." + t for t in [
     "egoPos_toMap", "position_decision_frame_free", "filter_toMap", "centerDist2_toMap", "planeDist2_toMap", "iou_toMap",
     "aphWeight_toMap", "headingError_toMap", "scoreRow_toMap", "scoreRow_toMap_decisions", "scoreTable_toMap",
-    "downstream_frame_free"]]
+    "downstream_frame_free", "samePose_toMap", "containsPose_toMap", "sameTable_toMap", "distinct_toMap"]]
 TRUSTED = [
     "pyquaternion yaw_pitch_roll / rotation composition and numpy matrix products (external contracts, exercised by every case)",
     "shapely polygon intersection (IoU scores are compared between the two renderings within 1e-6)",
 ]
 ASSUMPTIONS = [
-    "ego poses are yaw + planar translation (the property's quantifier)",
-    "no decision within 1e-6 of its boundary (margins are checked on the ego rendering; such scenes are counted as skipped)",
+    "ego poses are yaw + planar translation (the property's quantifier), translations up to 2^20 m",
+    "no two objects of a frame are equal under DynamicObject.__eq__ (twins are distinct objects: they differ in position by >= 1/1024 m)",
+    "no decision within 1e-6 of its boundary, no two matches of a frame with center distances within 1e-6 of each other "
+    "(margins are checked on the ego rendering; such scenes are counted as skipped)",
 ]
 
 LABELS = ["car", "bicycle", "pedestrian", "motorbike"]
@@ -128,6 +141,114 @@ def _scene(rng, task):
     return {"kind": "scene", "task": task, "frames": frames, "cfg": _cfg(rng)}
 
 
+# ---- the 'far' family: real map coordinates and twins ------------------------------------------------------
+# The property quantifies over ALL ego poses; real maps put the ego 1e4 .. 1e6 m from the map origin.  At such
+# magnitudes anything relative (tolerant comparisons, float32 storage, rounding to a fixed number of significant
+# digits) behaves differently from the ego rendering of the same scene.  Twins make object identity matter: two
+# distinct objects that agree in everything `__eq__` looks at except a small planar offset.
+
+TWIN_OFFSETS = [1.0 / 1024, 1.0 / 256, 1.0 / 64, 1.0 / 16, 0.125, 0.2, 0.25, 0.3, 0.375, 0.4, 0.5, 0.5, 0.6, 0.625, 0.75, 0.875, 1.0]
+TWIN_VARIANTS = ["one-matched", "one-matched", "one-matched", "both-unmatched", "both-matched", "matched-fails", "est-twins"]
+FAR = 5e4  # |map coordinate| from which a relative tolerance of 1e-5 reaches 0.5 m
+
+
+def _far_pose(rng):
+    def big():
+        lo, hi = rng.choice([(5e4, 1.3e5), (5e4, 1.3e5), (1.3e5, 1.05e6)])
+        return rng.choice([1, -1]) * rng.randint(int(lo * 4), int(hi * 4)) / 4
+
+    u = rng.random()
+    if u < 0.75:
+        tx, ty = big(), big()
+    elif u < 0.9:
+        tx, ty = (big(), rng.randint(-256, 256) / 4) if rng.random() < 0.5 else (rng.randint(-256, 256) / 4, big())
+    else:
+        tx, ty = rng.randint(-4096 * 4, 4096 * 4) / 4, rng.randint(-4096 * 4, 4096 * 4) / 4
+    t = Fraction(rng.randint(-40, 40), rng.randint(1, 40)) if rng.random() < 0.85 else Fraction(0)
+    return {"t": core.q(t), "tx": tx, "ty": ty}
+
+
+def _slip(rng, k):
+    """distance of a twin's estimate from its ground truth: pair `k` draws from its own band, so that the matches of
+    two pairs of twins are never tied in the matcher's ranking"""
+    return (rng.choice([0, 1, 2, 4]) + 8 * k) / 128 + (0.0 if rng.random() < 0.5 else round(rng.uniform(0.001, 0.006), 4))
+
+
+def _add_twins(rng, fr, f, k, variant, track):
+    """put one pair of twins (and the estimates of `variant`) into frame `fr`; `k` numbers the pair"""
+    off = rng.choice(TWIN_OFFSETS)
+    th = rng.choice([0.0, math.pi / 2]) if rng.random() < 0.4 else round(rng.uniform(-3, 3), 3)
+    ux, uy = (1.0, 0.0) if th == 0.0 else (0.0, 1.0) if th == math.pi / 2 else (math.cos(th), math.sin(th))
+    r, phi = rng.uniform(8.0, 17.0), rng.uniform(-math.pi, math.pi)  # inside every generated filter, away from the bounds
+    lab = rng.choice(LABELS)
+    small = lab in ("pedestrian", "bicycle") or rng.random() < 0.5
+    a = {"id": 50 + 2 * k, "x": round(r * math.cos(phi), 3), "y": round(r * math.sin(phi), 3), "yaw": round(rng.uniform(-3.1, 3.1), 4),
+         "label": lab, "w": round(rng.uniform(0.5, 0.9), 2) if small else round(rng.uniform(1.5, 2.2), 2),
+         "l": round(rng.uniform(0.5, 0.9), 2) if small else round(rng.uniform(3.0, 5.0), 2), "h": round(rng.uniform(1.0, 2.0), 2),
+         "uuid": f"gT{k}a"}
+    b = dict(a, id=51 + 2 * k, x=a["x"] + off * ux, y=a["y"] + off * uy, uuid=f"gT{k}b")
+
+    def est(g, i, slip, side, uuid):
+        # beside `g`, on the side away from its twin (side = +1 for a, -1 for b): the nearest ground truth is `g`
+        e = dict(g, id=i, x=g["x"] - side * slip * ux, y=g["y"] - side * slip * uy, uuid=uuid, score=rng.choice([0.5, 0.625, 0.75, 0.875]))
+        if rng.random() < 0.3:
+            e["yaw"] = round(math.remainder(g["yaw"] + rng.choice([0.05, -0.1, 3.0, math.pi]) + rng.uniform(-0.04, 0.04), 2 * math.pi), 4)
+        return e
+
+    first, s1 = (a, 1) if rng.random() < 0.5 else (b, -1)
+    second, s2 = (b, -1) if first is a else (a, 1)
+    base = 100 * f + 90 + 4 * k
+    tid = (lambda n: f"tT{k}{n}") if track else (lambda n: f"xT{f}_{k}{n}")
+    new_g, new_e = [a, b], []
+    if variant in ("one-matched", "both-matched"):
+        new_e.append(est(first, base, _slip(rng, k), s1, tid("p")))
+    if variant == "both-matched":
+        new_e.append(est(second, base + 1, _slip(rng, k) + 1 / 256, s2, tid("q")))
+    if variant == "matched-fails":  # matched, but with another label or too far away to pass
+        e = est(first, base, _slip(rng, k), s1, tid("p"))
+        if rng.random() < 0.5:
+            e["label"] = rng.choice([l for l in LABELS if l != lab])
+        else:
+            e["x"] -= s1 * 4.0 * ux
+            e["y"] -= s1 * 4.0 * uy
+        new_e.append(e)
+    if variant == "est-twins":  # ONE ground truth, two detections of it that are twins of each other
+        new_g = [a]
+        e1 = est(a, base, _slip(rng, k), 1, tid("p"))
+        e1["yaw"] = a["yaw"]
+        e2 = dict(e1, id=base + 1, x=e1["x"] - off * ux, y=e1["y"] - off * uy, uuid=tid("q"))
+        if rng.random() < 0.5:
+            e2["score"] = e1["score"]
+        new_e += [e1, e2] if rng.random() < 0.5 else [e2, e1]
+    rng.shuffle(new_g)
+    for g in new_g:  # adjacent or not, before or after the other ground truths
+        at = rng.choice([0, len(fr["gts"])])
+        fr["gts"][at:at] = [g]
+    for e in new_e:
+        at = rng.randint(0, len(fr["ests"]))
+        fr["ests"][at:at] = [e]
+    fr.setdefault("twins", []).append({"variant": variant, "ids": [g["id"] for g in new_g], "off": off})
+
+
+def _far_scene(rng, task):
+    """a light scene of the ordinary kind, far from the map origin, with twins in every frame"""
+    c = _scene(rng, task)
+    cfg = c["cfg"]
+    if rng.random() < 0.6:  # the twins' matches mostly pass (one-matched = TP + FN), sometimes not
+        cfg["pf_thr"] = [max(t, 1.0) for t in cfg["pf_thr"]]
+    variants = [rng.choice(TWIN_VARIANTS) for _ in range(rng.choice([1, 1, 2]))]
+    keep_g, keep_e = rng.choice([0, 1, 2, 3]), rng.choice([0, 1, 2])
+    for f, fr in enumerate(c["frames"]):
+        # the twins are the subject, the rest is context (kept away from them so that the variant is what it says)
+        fr["gts"] = [g for g in fr["gts"] if math.hypot(g["x"], g["y"]) > 22.0][:keep_g]
+        fr["ests"] = [e for e in fr["ests"] if math.hypot(e["x"], e["y"]) > 22.0][:keep_e]
+        fr["pose"] = _far_pose(rng)
+        for k, v in enumerate(variants):
+            _add_twins(rng, fr, f, k, v, task == "tracking")
+    c["far"] = True
+    return c
+
+
 def corpus():
     # F2 (fixed): map-frame results, critical filter narrower than the manager filter
     g = [{"id": 0, "x": 10.0, "y": 0.0, "yaw": 0.0, "label": "car", "w": 2.0, "l": 4.0, "h": 1.5, "uuid": "g0"},
@@ -143,12 +264,25 @@ def corpus():
     e2 = [dict(e[0], yaw=0.3)]
     c2 = {"kind": "scene", "task": "detection",
           "frames": [{"t": 1000, "gts": g2, "ests": e2, "pose": {"t": "-3/2", "tx": -512.0, "ty": 64.5}}], "cfg": cfg}
-    return [c1, c2]
+    # twins far from the map origin: two pedestrians side by side, one of them detected (TP + FN in every frame)
+    ped = {"id": 0, "x": 12.0, "y": 3.0, "yaw": 0.3, "label": "pedestrian", "w": 0.6, "l": 0.6, "h": 1.7, "uuid": "g0"}
+    cs = []
+    for off, (tx, ty) in [((0.25, 0.5), (81234.5, 63210.75)), ((1.0 / 1024, 0.0), (-1000000.25, 987654.5)), ((0.0, 0.875), (64.0, -524288.5))]:
+        g3 = [dict(ped), dict(ped, id=1, x=ped["x"] + off[0], y=ped["y"] + off[1], uuid="g1"), dict(g[0], id=2, x=20.0, y=-4.0, uuid="g2")]
+        e3 = [dict(ped, id=0, x=11.95, y=2.98, uuid="e0", score=0.9), dict(g3[2], id=1, x=20.1, uuid="e1", score=0.8)]
+        cs.append({"kind": "scene", "task": "detection", "far": True, "cfg": cfg,
+                   "frames": [{"t": 1000, "gts": g3, "ests": e3, "pose": {"t": "1/3", "tx": tx, "ty": ty},
+                               "twins": [{"variant": "one-matched", "ids": [0, 1], "off": math.hypot(*off)}]}]})
+    return [c1, c2] + cs
 
 
 def generate(rng, tier):
     n_det, n_trk = (70, 25) if tier == "quick" else (900, 300)
-    return [_scene(rng, "detection") for _ in range(n_det)] + [_scene(rng, "tracking") for _ in range(n_trk)]
+    cases = [_scene(rng, "detection") for _ in range(n_det)] + [_scene(rng, "tracking") for _ in range(n_trk)]
+    # the far/twin family is drawn after the base cases, which therefore stay what they were for a given seed
+    n_fdet, n_ftrk = (60, 14) if tier == "quick" else (700, 160)
+    cases += [_far_scene(rng, "detection") for _ in range(n_fdet)] + [_far_scene(rng, "tracking") for _ in range(n_ftrk)]
+    return cases
 
 
 # ----------------------------------------------------------------------------- real executions
@@ -206,6 +340,7 @@ def _render(case, frame):
              "fp": [[eid[id(r.estimated_object)]] for r in res.pass_fail_result.fp_object_results],
              "fn": [gid[id(g)] for g in res.pass_fail_result.fn_objects],
              "tn": [gid[id(g)] for g in res.pass_fail_result.tn_objects],
+             "num_success": int(res.pass_fail_result.get_num_success()), "num_fail": int(res.pass_fail_result.get_num_fail()),
              "scores": {}, "maps": _maps(res.metrics_score), "trk": _trk(res.metrics_score)}
         for r in res.object_results:
             if r.ground_truth_object is not None:
@@ -242,7 +377,7 @@ def _trk(ms):
     for ts in ms.tracking_scores:
         out.append({"mode": ts.matching_mode.value,
                     "clears": [[c.target_labels[0].value, _num(c.results.get("MOTA")), _num(c.results.get("MOTP")),
-                                c.results.get("id_switch"), _num(c.tp), _num(c.fp)] for c in ts.clears]})
+                                c.results.get("id_switch"), _num(c.tp), _num(c.fp), int(c.num_ground_truth)] for c in ts.clears]})
     return out
 
 
@@ -307,7 +442,10 @@ def _pair_obs(case):
                         r.heading_error[2]]
 
             pairs.append({"i": i, "j": j, "ego": row(re_), "map": row(rm), "rank_margin": d[2] - d[1]})
-    return {"ests": [e[2:] for e in ests], "gts": [g[2:] for g in gts], "pairs": pairs}
+    # who is equal to whom under DynamicObject.__eq__, in both renderings (index 0: ego object, 1: map object)
+    same = {f"{side}_{nm}": [[bool(a[k] == b[k]) for b in objs] for a in objs]
+            for side, objs in (("gts", gts), ("ests", ests)) for k, nm in ((0, "ego"), (1, "map"))}
+    return {"ests": [e[2:] for e in ests], "gts": [g[2:] for g in gts], "pairs": pairs, "same": same}
 
 
 def run_impl(case):
@@ -326,8 +464,12 @@ def run_impl(case):
     c = case["cfg"]
     for f in ego["frames"]:
         vals = list(f["scores"].values())
-        cds = [v[0] for v in vals]
+        cds = sorted(v[0] for v in vals)
+        if any(b - a < MARGIN for a, b in zip(cds, cds[1:])):
+            near = True  # two matches tied in the matcher's ranking: the order of the results is not determined
         for v in vals:
+            if v[5] and math.pi - abs(v[5][0]) < MARGIN:
+                near = True  # exactly opposite headings: the sign of the yaw error is decided by rounding (headingError_toMap)
             thr = [(v[0], c["center_thr"]), (v[1], c["plane_thr"]), (v[2], c["iou2d_thr"]), (v[3], c["iou3d_thr"])]
             thr += [(v[1], t) for t in c["pf_thr"]]
             if c["radii"]:
@@ -388,6 +530,18 @@ def compare(case, out, resps):
             my = float(Fraction(m["yaw_err"]))
             if not (abs(ye - my) <= 1e-9 or (abs(abs(ye) - 1) < 1e-9 and abs(abs(my) - 1) < 1e-9)):
                 return f"pair {p['i']},{p['j']} [{rendering}] yaw error: real {ye} != model {my}"
+    # object identity: `==` of the real objects vs the model's equality table (same pose) and the frame-free label
+    fr = case["frames"][0]
+    for side in ("gts", "ests"):
+        labs = [o["label"] for o in fr[side]]
+        for rendering in ("ego", "map"):
+            real, mod = obs["same"][f"{side}_{rendering}"], r[f"same_{side}_{rendering}"]
+            for i, row in enumerate(real):
+                for j, v in enumerate(row):
+                    want = bool(mod[i][j]) and labs[i] == labs[j]
+                    if v != want:
+                        return (f"{side}[{i}] == {side}[{j}] is {v} in the {rendering} rendering, the model says {want} "
+                                f"(ids {fr[side][i]['id']}, {fr[side][j]['id']})")
     return None
 
 
@@ -449,6 +603,36 @@ def branches(case, out):
     br += [f"pairs:{min(npairs, 5)}", f"tp:{min(ntp, 3)}", f"fn:{min(nfn, 3)}", f"gt-filtered-out:{min(dropped, 2)}"]
     if npairs == 0:
         br.append("trivial")
+    br += _twin_branches(case, out)
+    return br
+
+
+def _twin_branches(case, out):
+    """histogram keys of the far/twin family, from what the real code reported on the ego rendering"""
+    br = []
+    for fr, f in zip(case["frames"], out["ego"]["frames"]):
+        tmax = max(abs(fr["pose"]["tx"]), abs(fr["pose"]["ty"]))
+        both = min(abs(fr["pose"]["tx"]), abs(fr["pose"]["ty"])) >= FAR
+        where = "far-both-axes" if both else "far-one-axis" if tmax >= FAR else "near-origin"
+        br.append("ego-translation:" + ("<5e4" if tmax < FAR else "5e4-1.3e5" if tmax < 1.3e5 else ">1.3e5"))
+        matched = {p[1] for p in f["pairs"] if p[1] is not None}
+        tp_g = {p[1] for p in f["tp"]}
+        for tw in fr.get("twins", []):
+            ids = [i for i in tw["ids"] if any(g["id"] == i for g in fr["gts"])]
+            if len(ids) < len(tw["ids"]):
+                continue  # shrunk away
+            off = tw["off"]
+            br.append("twin:offset:" + ("<0.01" if off < 0.01 else "<0.2" if off < 0.19 else "0.2-0.5" if off <= 0.5 else "0.5-1.0"))
+            if len(ids) == 1:
+                n_e = sum(1 for p in f["pairs"] if p[1] == ids[0]) + len(f["fp"])
+                br.append(f"twin:estimates:{where}")
+                continue
+            if not all(i in f["gt_kept"] for i in ids):
+                br.append("twin:not-both-kept")
+                continue
+            n = sum(i in matched for i in ids)
+            br.append(f"twin:gt:{['both-unmatched', 'one-matched', 'both-matched'][n]}:{where}")
+            br.append(f"twin:gt:tp{sum(i in tp_g for i in ids)}-fn{sum(i in f['fn'] for i in ids)}:{where}")
     return br
 
 
